@@ -4,6 +4,7 @@ import EaselModel.Alphabet.ScoreLemmas
 import EaselModel.Alphabet.CustomLemmas
 import EaselModel.Alphabet.CatLemmas
 import EaselModel.Alphabet.SqLemmas
+import EaselModel.Alphabet.DealignLemmas
 /-! # C08 — property theorems (statements + glue only; lemmas live in Alphabet/*.lean)
 
 `G.dna`, `G.rna`, `G.amino`, `G.coins`, `G.dice` are the tables dumped from the code under check on this run
@@ -194,6 +195,17 @@ theorem sq_text_revcomp_agrees (a : Alphabet) (comp : List Nat) (h : Sq.TextComp
     (Sq.revcompText s).1 = .ok ∧
     a.digitize (Sq.revcompText s).2 = (.ok, mkDsq ((s.filterMap a.code).reverse.map (compAt comp))) :=
   Sq.text_revcomp_digitize a comp h s hs
+
+/-- `esl_abc_CDealign`: the in-place compaction of an annotation string against a digital reference leaves exactly the
+    characters aligned to non-gap, non-missing reference positions (`keptOf`), and reports their number -/
+theorem cdealign_spec (a : Alphabet) (s refs : List Nat) (hs : SENTINEL ∉ refs) (hl : refs.length ≤ s.length) :
+    a.cDealign s (mkDsq refs) = some (keptOf a refs s, (keptOf a refs s).length) :=
+  cDealign_spec a s refs hs hl
+
+/-- `esl_abc_XDealign`: the same for a digital sequence, sentinels restored -/
+theorem xdealign_spec (a : Alphabet) (xs refs : List Nat) (hs : SENTINEL ∉ refs) (hl : refs.length ≤ xs.length) :
+    a.xDealign (mkDsq xs) (mkDsq refs) = some (mkDsq (keptOf a refs xs), (keptOf a refs xs).length) :=
+  xDealign_spec a xs refs hs hl
 
 /-! ## custom alphabets -/
 
